@@ -73,10 +73,19 @@ class Pool:
             else:
                 wk = a / a.sum()
             S["dg%d" % k] = np.diag(wk).astype(np.complex128)
+        if d == 4:
+            # well-conditioned 2-qubit testers: products of the 1-qubit complete set
+            P1 = pool("Q1", seed)
+            names = P1.state_sets["complete"]
+            for a in names:
+                for b in names:
+                    S["prod_%s_%s" % (a, b)] = np.kron(P1.states[a], P1.states[b])
 
     def _state_sets(self):
         d, D = self.d, self.D
         base = ["z0", "pure_fourier", "mg0"] + ["pg%d" % s for s in range(D - 3)]
+        if d == 4:
+            base = sorted(n for n in self.states if n.startswith("prod_"))
         assert len(base) == D
         return {
             "complete": base,
@@ -94,6 +103,12 @@ class Pool:
         for m in (2, 3, 4):
             for s in range(6):
                 P["g%ds%d" % (m, s)] = A.povm_generic(d, m, seed, salt=60 + 7 * s + m)
+        if d == 4:
+            P1 = pool("Q1", seed)
+            names = P1.povm_sets["equal_complete"]
+            for a in names:
+                for b in names:
+                    P["prod_%s_%s" % (a, b)] = [np.kron(Ma, Mb) for Ma in P1.povms[a] for Mb in P1.povms[b]]
         # commuting (diagonal) POVMs: span only d dimensions
         for m in (2, 3, 4):
             for s in range(4):
@@ -124,12 +139,12 @@ class Pool:
                 "incomplete_tall": ["comp_m3", "diag4s0", "diag3s1", "diag2s2", "diag4s3"],
             }
         if d == 4:
+            prod = sorted(n for n in self.povms if n.startswith("prod_"))        # 9 product POVMs, 4 outcomes each
             return {
-                "mixed_complete": ["g4s0", "g4s1", "g4s2", "g4s3", "generic_m3", "generic_m2"],
-                "equal_complete": ["g4s0", "g4s1", "g4s2", "g4s3", "generic_m4"],
-                "over_mixed": ["g4s0", "g4s1", "g4s2", "g4s3", "generic_m3", "generic_m2", "withzero_m4", "comp_m4",
-                               "rank1_m4"],
-                "over_equal": ["g4s0", "g4s1", "g4s2", "g4s3", "generic_m4", "withzero_m4", "comp_m4"],
+                "mixed_complete": prod + ["generic_m3", "generic_m2"],
+                "equal_complete": prod,
+                "over_mixed": prod + ["generic_m3", "generic_m2", "withzero_m4", "comp_m4", "rank1_m4", "g4s0"],
+                "over_equal": prod + ["generic_m4", "withzero_m4", "comp_m4"],
                 "incomplete_wide": ["generic_m4", "generic_m3"],
                 "incomplete_tall": ["comp_m4", "diag4s0", "diag4s1", "diag4s2", "diag3s3", "diag2s0"],
             }
@@ -232,6 +247,9 @@ def config_list(tier, only_complete=False):
                     if m == 4 and d > 2 and tier == "quick" and (ss, ps) != ("complete", "mixed_complete"):
                         continue
                     if m >= 3 and d == 4 and (ss, ps) not in (("complete", "mixed_complete"), ("complete", "equal_complete")):
+                        continue
+                    if d == 4 and (ss, ps) in (("over", "over_equal"), ("complete", "incomplete_wide"),
+                                               ("incomplete_diag", "incomplete_tall")):
                         continue
                     out.append({"tomo": "qmpt", "flag": flag, "sys": systag, "m": m, "sset": ss, "pset": ps})
     return out
